@@ -34,7 +34,7 @@ struct Plan
 {
   bool isFloat = false;
   int p = 1;             // estimate size
-  int ctorRows = -1;     // -1: LeastSquares(p); otherwise LeastSquares(p, ctorRows)
+  int ctorRows = -1;     // -1: LeastSquares(p); -2: LeastSquares() + setEstimateSize(p); otherwise LeastSquares(p, ctorRows)
   std::vector<Problem> problems;
 };
 
@@ -88,7 +88,8 @@ Outcome runHistory(const Plan & pl, Ctx & c)
   using LS = romea::core::LeastSquares<T>;
   using Mat = typename LS::Matrix; using Vec = typename LS::Vector;
   const int p = pl.p;
-  std::unique_ptr<LS> ls(pl.ctorRows < 0 ? new LS((size_t)p) : new LS((size_t)p, (size_t)pl.ctorRows));
+  std::unique_ptr<LS> ls(pl.ctorRows == -2 ? new LS() : (pl.ctorRows < 0 ? new LS((size_t)p) : new LS((size_t)p, (size_t)pl.ctorRows)));
+  if (pl.ctorRows == -2) {ls->setEstimateSize((size_t)p); SIM_PROBE("default_constructed_then_setEstimateSize");}
   // the model of the configuration that survives between problems: the preconditioner
   Mat curA = Mat::Identity(p, p); Vec curB = Vec::Zero(p);
   int rows = pl.ctorRows < 0 ? 0 : pl.ctorRows;   // rows the buffers currently have
@@ -280,7 +281,7 @@ struct PropC07
   {
     Rng r(runseed);
     Plan p; p.isFloat = r.chance(0.4); p.p = (int)r.range(1, 8);
-    p.ctorRows = r.chance(0.3) ? (int)r.range(p.p, 300) : -1;
+    p.ctorRows = r.chance(0.3) ? (int)r.range(p.p, 300) : (r.chance(0.2) ? -2 : -1);
     int n = (int)r.range(1, 12);
     int sizeStyle = (int)r.below(3);   // 0 wander, 1 big then small, 2 tiny
     double maxCond = p.isFloat ? 1e3 : 1e6;
@@ -348,7 +349,7 @@ struct PropC07
   {
     std::vector<Plan> out;
     removalCandidates(p.problems, [&](std::vector<Problem> v) {if (!v.empty()) {Plan q = p; q.problems = std::move(v); out.push_back(q);}});
-    if (p.ctorRows >= 0) {Plan q = p; q.ctorRows = -1; out.push_back(q);}
+    if (p.ctorRows != -1) {Plan q = p; q.ctorRows = -1; out.push_back(q);}
     if (p.p > 1) {Plan q = p; q.p = p.p - 1; out.push_back(q);}
     if (p.isFloat) {Plan q = p; q.isFloat = false; out.push_back(q);}
     for (size_t k = 0; k < p.problems.size(); ++k) {
@@ -367,7 +368,7 @@ struct PropC07
   uint64_t planSize(const Plan & p) const {return p.problems.size();}
   uint64_t shapeHash(const Plan & p) const
   {
-    uint64_t h = mix64((uint64_t)p.isFloat * 16 + (uint64_t)p.p, (uint64_t)(p.ctorRows + 1));
+    uint64_t h = mix64((uint64_t)p.isFloat * 16 + (uint64_t)p.p, (uint64_t)(p.ctorRows + 2));
     int rows = std::max(0, p.ctorRows);
     for (auto & pb : p.problems) {
       int m = std::max(pb.m, p.p); int cls = m > rows ? 0 : (m < rows ? 1 : 2); rows = std::max(rows, m);
@@ -393,7 +394,7 @@ struct PropC07
   std::vector<std::string> probeNames() const
   {
     return {"grow_reallocates_buffers", "shrink_leaves_stale_rows", "same_size_as_buffers", "smaller_problem_after_larger", "grow_within_existing_buffers",
-      "preconditioner_carried_over_from_earlier_problem", "problem_is_prefix_of_previous_buffers_no_write",
+      "preconditioner_carried_over_from_earlier_problem", "default_constructed_then_setEstimateSize", "problem_is_prefix_of_previous_buffers_no_write",
       "problem_written_through_references_kept_from_start", "small_scale_problem", "large_scale_problem", "ill_conditioned_problem", "square_problem"};
   }
   Json describe() const
